@@ -197,7 +197,15 @@ class RealPool:
 
         def work(si):
             for i in range(si, len(reqs), n):
-                out[i] = self.servers[si].ask(reqs[i])
+                try:
+                    out[i] = self.servers[si].ask(reqs[i])
+                except Exception as e:
+                    out[i] = dict(failed=[], obs=None, assume_violated=None, error='real-side protocol failure: %r' % (e,))
+                    try:
+                        self.servers[si].close()
+                        self.servers[si] = RealServer()
+                    except Exception:
+                        pass
         ths = [threading.Thread(target=work, args=(si,)) for si in range(n)]
         for t in ths:
             t.start()
